@@ -1249,11 +1249,14 @@ def evaluate_update_tie(env, res, cases):
 
 def evaluate(env, res, cases):
     ties = [c for c in cases if c.get('update_tie') is not None]
-    if ties:
+    cases = [c for c in cases if c.get('update_tie') is None]
+    if cases:
+        evaluate_files(env, res, cases)
+    if ties:        # after the file cases: a finding is reported on a config FILE first
         evaluate_update_tie(env, res, ties)
-        cases = [c for c in cases if c.get('update_tie') is None]
-        if not cases:
-            return
+
+
+def evaluate_files(env, res, cases):
     repo = str(common.REPO)
     impl = impl_c20.run_many(cases, repo)
     models = env.driver.ask_many([history_request(c) if c.get('script') is not None else model_request(c) for c in cases])
@@ -1400,7 +1403,8 @@ def run(env, res):
                 'and init(), and between two init() calls on the same object or on different objects; then random '
                 'histories of 2-7 steps over 1-3 objects. Non-trivial = at least one config file exists, '
                 '$PYPYR_CONFIG_GLOBAL is set, or the case is a history.')
-    cases = update_tie_cases(env.rng) + all_cases(env, res)
+    cases = all_cases(env, res)
+    cases = cases + update_tie_cases(env.rng)
     evaluate(env, res, cases)
 
 
